@@ -767,15 +767,15 @@ func gen(rng *h.Rng, tier string, emit func(string)) {
 				var deps []string
 				k := []int{0, 0, 1, 1, 2, 3}[rng.Intn(6)]
 				for j := 0; j < k; j++ {
-					switch rng.Intn(8) {
+					switch rng.Intn(10) {
 					case 0:
-						deps = append(deps, "e1")
+						deps = append(deps, "e1") // never satisfied
 					case 1:
-						deps = append(deps, fmt.Sprintf("f%x", rng.Intn(4)))
+						deps = append(deps, fmt.Sprintf("f%x", rng.Intn(4))) // possibly in the initial history
 					case 2, 3:
 						deps = append(deps, fmt.Sprintf("%02x", first+rng.Intn(nrep))) // same block (incl. self)
-					case 4:
-						deps = append(deps, fmt.Sprintf("%02x", first+nrep+rng.Intn(6))) // a later block
+					case 4, 5, 6:
+						deps = append(deps, fmt.Sprintf("%02x", first+nrep+rng.Intn(4))) // a later block: waits in the queue
 					default:
 						deps = append(deps, fmt.Sprintf("%02x", 1+rng.Intn(first+nrep-1))) // any earlier or current
 					}
@@ -783,7 +783,12 @@ func gen(rng *h.Rng, tier string, emit func(string)) {
 				pre, look := splitDeps(rng, deps)
 				avail = append(avail, rep{lab, id, pre, look})
 			}
-			fmt.Fprintf(&sb, " %d %d %s", slot, pickCut(rng), fmtAvail(avail))
+			cut := 0
+			if rng.Chance(1, 8) {
+				cut = 1 + rng.Intn(2)
+				st.Inc("hist-block-with-cut")
+			}
+			fmt.Fprintf(&sb, " %d %d %s", slot, cut, fmtAvail(avail))
 		}
 		emit(sb.String())
 	}
